@@ -1,6 +1,7 @@
 package props
 
 import (
+	"fmt"
 	"sync"
 	"time"
 
@@ -8,6 +9,7 @@ import (
 
 	"sidever/internal/concr"
 	"sidever/internal/ev"
+	"sidever/internal/pipe"
 )
 
 func rfc3339(t int) string { return time.Unix(int64(concr.BaseTime+t), 0).UTC().Format(time.RFC3339) }
@@ -27,8 +29,58 @@ func C06(c *ev.Ctx) {
 	c.Cov.DistinctNontrivial = nt
 	c.Cov.Exhaustive = true
 	c.Cov.Extra["stores"] = stores
-	c.Cov.Rule = "every store of <= MaxOps operations (configuration 1: published only, full alphabet; configuration 2: published and unpublished, 6-shape alphabet) x every version time 0..max+1 x every version id of a stored operation + an unknown id; TLC checks HistoricalIsTruncation (implementation-shaped cut of the sorted list vs truncation of the set) and PastIsImmutable on the specification; the harness compares real(store, cut) with real(truncated store) and with the specification's result of the truncated store. Non-trivial: the cut removes >= 1 and keeps >= 1 operation."
+	historicalThroughHandler(c)
+	c.Cov.Rule = "every store of <= MaxOps operations (configuration 1: published only, full alphabet; configuration 2: published and unpublished, 6-shape alphabet) x every version time 0..max+1 x every version id of a stored operation + an unknown id; TLC checks HistoricalIsTruncation (implementation-shaped cut of the sorted list vs truncation of the set) and PastIsImmutable on the specification; the harness compares real(store, cut) - also with part of the history handed over through the AdditionalOperations option - with real(truncated store) and with the specification's result of the truncated store. Non-trivial: the cut removes >= 1 and keeps >= 1 operation. In addition Pipeline.tla behaviours (>= 2 observed transactions) run on the fully wired real pipeline with every DID resolved at every version time / version id through the document handler or the REST query parameters; the traces are validated against Pipeline!HistT / HistV."
 	c.Finish("model_checking")
+}
+
+// historicalThroughHandler: Pipeline.tla behaviours executed on the fully wired real pipeline, with a ResolveHist step
+// (every DID at every version time and at the reference of every ledger entry, through DocumentHandler.ResolveDocument
+// or - every other behaviour - the REST resolve endpoint's versionTime / versionId query parameters) after every run of
+// Observe steps and at the end; the recorded views are validated by TLC against Pipeline!HistT / HistV.
+func historicalThroughHandler(c *ev.Ctx) {
+	n := 40
+	if c.Tier == "thorough" {
+		n = 1200
+	}
+	twoObserved := func(h []pipe.Step) bool {
+		k := 0
+		for _, s := range h {
+			if s.A == "Observe" && s.F == "none" {
+				k++
+			}
+		}
+		return k >= 2
+	}
+	for _, unpub := range []bool{true, false} {
+		cfg := "MC_Pipeline_gen_unpub.cfg"
+		if !unpub {
+			cfg = "MC_Pipeline_gen_nounpub.cfg"
+		}
+		var sel [][]pipe.Step
+		for _, h := range pipelineBehaviours(c, cfg, n*3, c.Seed+606) {
+			if !twoObserved(h) {
+				continue
+			}
+			var g []pipe.Step
+			for i, s := range h {
+				g = append(g, s)
+				if s.A == "Observe" && (i+1 == len(h) || h[i+1].A != "Observe") {
+					g = append(g, pipe.Step{A: "ResolveHist"})
+				}
+			}
+			if g[len(g)-1].A != "ResolveHist" {
+				g = append(g, pipe.Step{A: "ResolveHist"})
+			}
+			sel = append(sel, g)
+			if len(sel) == n {
+				break
+			}
+		}
+		before := c.Cov.DistinctNontrivial
+		runPipelineBehaviours(c, unpub, sel, twoObserved, "historical-through-handler-trace-rejected")
+		c.Cov.Extra[fmt.Sprintf("pipeline_behaviours_with_historical_resolution_unpub_%v", unpub)] = c.Cov.DistinctNontrivial - before
+	}
 }
 
 func c06Config(c *ev.Ctx, cfg string) (int64, int64, int64) {
@@ -57,6 +109,16 @@ func c06Config(c *ev.Ctx, cfg string) (int64, int64, int64) {
 			}
 			got, _, _ := e.Resolve(cs.Ops, opt)
 			want, _, _ := e.Resolve(trunc)
+			// the same cut when part of the history arrives through the AdditionalOperations option (every second case:
+			// published additional operations are in the store as well)
+			extra := make([]bool, len(cs.Ops))
+			for k := range extra {
+				extra[k] = (i/2+k+int(localCuts))%2 == 0
+			}
+			if gotSplit, _, _ := e.ResolveSplit(cs.Ops, extra, i%2 == 1, opt); !gotSplit.Equal(want) {
+				c.Violation("historical-differs-from-truncated:"+kind+":additional-operations", map[string]interface{}{"store": e.Describe(cs.Ops), "cut": cut,
+					"handed_over_as_additional": extra, "also_in_store": i%2 == 1, "resolved_at_cut": gotSplit, "resolved_truncated_history": want})
+			}
 			ti, ok := index[Key(trunc)]
 			if !ok {
 				ev.Fatal("truncated store is not an enumerated state")
